@@ -231,8 +231,9 @@ Definition run_prog (en : env) (p : prog) (x : xstate) : xstate :=
 (* ---------------------------------------------------------------- static analysis *)
 (* abstract state: the two global_state values are tracked as constants (path by path);
    a_s = scalar members whose value is the same in the two runs being compared;
-   a_p = pointer members that point into the current image pool of their object *)
-Record astate := mka { a_c : Z; a_d : Z; a_s : list fld; a_p : list fld }.
+   a_p = pointer members that point into the current image pool of their object;
+   a_n = pointer members known to be NULL *)
+Record astate := mka { a_c : Z; a_d : Z; a_s : list fld; a_p : list fld; a_n : list fld }.
 
 Definition is_gs (f : fld) : bool := fld_eqb f gsc || fld_eqb f gsd.
 Definition sdef (a : astate) (f : fld) : bool := is_gs f || memf f (a_s a).
@@ -278,7 +279,7 @@ Fixpoint ains (a : astate) (l : list astate) : list astate :=
   match l with
   | [] => [a]
   | b :: t => if Z.eqb (a_c a) (a_c b) && Z.eqb (a_d a) (a_d b)
-              then mka (a_c b) (a_d b) (inter (a_s a) (a_s b)) (inter (a_p a) (a_p b)) :: t
+              then mka (a_c b) (a_d b) (inter (a_s a) (a_s b)) (inter (a_p a) (a_p b)) (inter (a_n a) (a_n b)) :: t
               else b :: ains a t
   end.
 Definition aunion (l m : list astate) : list astate := fold_right ains m l.
@@ -289,8 +290,8 @@ Definition runion (r1 r2 : ares) : ares :=
   mkr (aunion (r_next r1) (r_next r2)) (aunion (r_hand r1) (r_hand r2)) (aunion (r_bail r1) (r_bail r2)) (aunion (r_ret r1) (r_ret r2)).
 
 Definition set_gs (a : astate) (f : fld) (v : Z) : astate :=
-  if fld_eqb f gsc then mka v (a_d a) (a_s a) (a_p a)
-  else if fld_eqb f gsd then mka (a_c a) v (a_s a) (a_p a) else a.
+  if fld_eqb f gsc then mka v (a_d a) (a_s a) (a_p a) (a_n a)
+  else if fld_eqb f gsd then mka (a_c a) v (a_s a) (a_p a) (a_n a) else a.
 
 (* run the analysis of b from every state of a list, accumulating *)
 Fixpoint afold (f : astate -> option ares) (l : list astate) (acc : ares) : option ares :=
@@ -313,11 +314,13 @@ Fixpoint ana (c : cmd) (a : astate) : option ares :=
   | CSet f e =>
       if is_gs f then
         match aeval a e with Some v => Some (rnext (set_gs a f v)) | None => None end
-      else if alldef a (reads e) then Some (rnext (mka (a_c a) (a_d a) (addf f (a_s a)) (a_p a))) else None
-  | CAlloc p => Some (rnext (mka (a_c a) (a_d a) (a_s a) (addf p (a_p a))))
-  | CNull p => Some (rnext (mka (a_c a) (a_d a) (a_s a) (removef p (a_p a))))
+      else if alldef a (reads e) then Some (rnext (mka (a_c a) (a_d a) (addf f (a_s a)) (a_p a) (a_n a))) else None
+  | CAlloc p => Some (rnext (mka (a_c a) (a_d a) (a_s a) (addf p (a_p a)) (removef p (a_n a))))
+  | CNull p => Some (rnext (mka (a_c a) (a_d a) (a_s a) (removef p (a_p a)) (addf p (a_n a))))
   | CDeref p => if memf p (a_p a) then Some (rnext a) else None
-  | CIfNull p x y => if memf p (a_p a) then ana y a else None      (* a_p: known to be live, hence not NULL *)
+  | CIfNull p x y => if memf p (a_p a) then ana y a            (* known to be live, hence not NULL *)
+                     else if memf p (a_n a) then ana x a       (* known to be NULL *)
+                     else None
   | CIf e x y =>
       match aeval a e with
       | Some v => if Z.eqb v 0 then ana y a else ana x a
@@ -327,9 +330,9 @@ Fixpoint ana (c : cmd) (a : astate) : option ares :=
       end
   | CAbort o =>
       match o with
-      | OC => Some (rnext (mka CSTART (a_d a) (a_s a) (remove_obj OC (a_p a))))
-      | OD => Some (rnext (mka (a_c a) DSTART (a_s a) (remove_obj OD (a_p a))))
-      | OT => Some (rnext (mka (a_c a) (a_d a) (a_s a) (remove_obj OT (a_p a))))
+      | OC => Some (rnext (mka CSTART (a_d a) (a_s a) (remove_obj OC (a_p a)) (a_n a)))
+      | OD => Some (rnext (mka (a_c a) DSTART (a_s a) (remove_obj OD (a_p a)) (addf (OD, "marker_list"%string) (a_n a))))
+      | OT => Some (rnext (mka (a_c a) (a_d a) (a_s a) (remove_obj OT (a_p a)) (a_n a)))
       end
   | CObs _ e => if alldef a (reads e) then Some (rnext a) else None
   | CRaise => Some (mkr [] [a] [] [])
@@ -371,4 +374,8 @@ Definition ana_prog (p : prog) (a : astate) : option (list astate) :=
       end
   end.
 
-Definition at_start (a : astate) : bool := Z.eqb (a_c a) CSTART && Z.eqb (a_d a) DSTART.
+(* pointer members that are NULL whenever the instance is idle: the list of saved markers, and the
+   "dummy marker-reader methods installed" mark of tj3DecodeYUVPlanes8 *)
+Definition idle_nulls : list fld := [(OD, "marker_list"%string); (OD, "marker->dummy_methods"%string)].
+Definition at_start (a : astate) : bool :=
+  Z.eqb (a_c a) CSTART && Z.eqb (a_d a) DSTART && forallb (fun p => memf p (a_n a)) idle_nulls.
